@@ -42,6 +42,7 @@ type commitLog struct {
 	compactCleaner   *compactCleaner
 	name             string
 	mu               sync.RWMutex
+	appendMu         sync.Mutex // Serializes appends with segment rolls done by the cleaner loop
 	hw               int64
 	closed           chan struct{}
 	segments         []*segment
@@ -262,6 +263,8 @@ func (l *commitLog) Append(msgs []*Message) ([]int64, error) {
 	if l.IsReadonly() {
 		return nil, ErrCommitLogReadonly
 	}
+	l.appendMu.Lock()
+	defer l.appendMu.Unlock()
 	if _, err := l.checkAndPerformSplit(); err != nil {
 		return nil, err
 	}
@@ -282,6 +285,8 @@ func (l *commitLog) Append(msgs []*Message) ([]int64, error) {
 // in readonly mode to allow for reconciliation, e.g. when replicating from
 // another log.
 func (l *commitLog) AppendMessageSet(ms []byte) ([]int64, error) {
+	l.appendMu.Lock()
+	defer l.appendMu.Unlock()
 	if _, err := l.checkAndPerformSplit(); err != nil {
 		return nil, err
 	}
@@ -744,7 +749,7 @@ func (l *commitLog) cleanerLoop() {
 		}
 
 		// Check to see if the active segment should be split.
-		split, err := l.checkAndPerformSplit()
+		split, err := l.splitIfDue()
 		if err != nil {
 			l.Logger.Errorf("Failed to split log %s: %v", l.Path, err)
 			continue
@@ -760,6 +765,17 @@ func (l *commitLog) cleanerLoop() {
 			l.Logger.Errorf("Failed to clean log %s: %v", l.Path, err)
 		}
 	}
+}
+
+// splitIfDue rolls a new active segment if the current one is due for it. An
+// append writes to the segment it found active after its own check, so appends
+// are locked out while the cleaner loop rolls. Otherwise, the append would
+// write to the sealed segment (whose index has been shrunk) an offset the new
+// segment starts at.
+func (l *commitLog) splitIfDue() (bool, error) {
+	l.appendMu.Lock()
+	defer l.appendMu.Unlock()
+	return l.checkAndPerformSplit()
 }
 
 // Clean applies retention and compaction rules against the log, if applicable.
